@@ -3,10 +3,12 @@
 Theorems of coq/C09 (reader logic on arbitrary byte strings) + correspondence of the real loaders, run in child
 processes under AddressSanitizer, against the extracted reader models on: every byte prefix of valid files written by
 the library itself, token-level corruptions, malformed byte streams, CSV files and grid exchange files.
-For the classes that have a model (Db, DbGrid, Table, Polygons, PolyElem, PolyLine2D, Faults) the outcome class
-{fail, ok(object dump)} must equal the model's; for every class a signal, a sanitizer report, an escaped exception,
-a time-out, an allocation out of proportion with the file, or a returned object that cannot be printed / saved /
-reloaded identically is a violation with the file as replay.
+For the classes that have a model (Db, DbGrid, Table, Polygons, PolyElem, PolyLine2D, Faults, Rule, AnamHermite, the Neigh family,
+Vario, Model, the CSV reader; AnamDiscreteDD / IR, AnamEmpirical, DbLine, MeshETurbo once their guards fixes/C09_19..22 are in) the outcome class
+{fail, ok(object dump)} must equal the model's (the code as it is now); a file on which the implementation behaves as the reader
+model BEFORE a fix is reported under the key of the old failure (regression); for every class a signal, a sanitizer report, an escaped
+exception, a time-out, an allocation out of proportion with the file, or a returned object that cannot be printed / saved / reloaded
+is a violation with the file as replay. The grid exchange formats have no model (generic rules only).
 """
 import sys, os, re, base64, tempfile, shutil, subprocess, time, resource
 from concurrent.futures import ThreadPoolExecutor
@@ -23,7 +25,13 @@ ENTRY = {30: 'Db::createFromCSV', 31: 'Db::createFromCSV', 32: 'Db::createFromCS
 TAGS = {1: b'Db', 2: b'DbGrid', 3: b'Table', 4: b'Polygon', 5: b'Vario', 6: b'Model', 7: b'NeighMoving', 8: b'NeighUnique',
         9: b'NeighBench', 10: b'AnamHermite', 11: b'PolyLine2D', 12: b'MeshETurbo', 13: b'Rule', 14: b'Faults', 15: b'NeighImage',
         16: b'NeighCell', 17: b'AnamEmpirical', 18: b'AnamDiscreteDD', 19: b'AnamDiscreteIR', 20: b'DbLine', 21: b'PolyElem'}
-MODELLED = {1, 2, 3, 4, 11, 14, 21, 5, 6, 7, 8, 9, 10, 13, 16}
+MODELLED = {1, 2, 3, 4, 11, 14, 21, 5, 6, 7, 8, 9, 10, 13, 15, 16, 30, 31, 32, 33, 34}
+# readers whose model (coq/C09/Readers4.v) is the reader WITH the guards of the proposed fixes/C09_19 .. C09_22: the class joins
+# MODELLED when the implementation shows the guard on the probe file (it fails cleanly instead of throwing), else the generic
+# rules apply to it (and report the unguarded count under its known key)
+PENDING = {17: b'AnamEmpirical\n0 0 0 0 0 0 0 0 0 0\n-3\n0\n', 18: b'AnamDiscreteDD\n-3\n-3\n-3\n', 19: b'AnamDiscreteIR\n-3\n-3\n-3\n',
+           20: b'DbLine\n2\n-3\n', 12: b'MeshETurbo\n-3\n-3\n-3\n'}
+FULL_PREFIX = {1, 2, 3, 4, 11, 14, 21}     # quick tier: every byte prefix for these, line ends + a sample for the others
 ONE_SIDED = {6}     # Model: the construction of covariances / drifts is an oracle of the model (it answers yes): an ok of the model may be a failure downstream
 CAP = 256 << 20          # one allocation request above this is refused in the child (harness + ASan option) and in the model
 BIGFUEL = 300000         # fuel of the second model run (the theorems use |f|+1)
@@ -34,7 +42,8 @@ ASAN = ('detect_leaks=0:abort_on_error=0:exitcode=86:allocator_may_return_null=1
 def entry(cls): return ENTRY.get(cls, CLS[cls] + '::createFromNF')
 
 # model sites -> (function, kind of defect)
-SITE = {50: 'value-loop', 51: 'Rule::_deserialize', 52: 'Rule::_deserialize', 61: 'AnamHermite::_deserialize', 71: 'ANeigh::_deserialize', 72: 'NeighMoving::_deserialize',
+SITE = {100: 'Db::createFromCSV', 101: 'Db::createFromCSV', 62: 'AnamDiscrete::_deserialize', 64: 'AnamDiscrete::_deserialize', 65: 'AnamEmpirical::_deserialize',
+        63: 'DbLine::_deserialize', 74: 'MeshETurbo::_deserialize', 50: 'value-loop', 51: 'Rule::_deserialize', 52: 'Rule::_deserialize', 61: 'AnamHermite::_deserialize', 71: 'ANeigh::_deserialize', 72: 'NeighMoving::_deserialize', 73: 'NeighImage::_deserialize',
         81: 'Vario::_deserialize', 82: 'Vario::_deserialize', 83: 'Vario::_deserialize', 84: 'Vario::_deserialize', 91: 'Model::_deserialize', 92: 'Model::_deserialize', 93: 'Model::_deserialize', 94: 'Model::_deserialize',
         1: '_recordRead', 11: '_recordReadVec<String>(locators)', 12: '_recordReadVec<String>(names)', 13: 'Db::_deserialize',
         14: '_recordReadVecInPlace', 15: 'Db::resetDims', 16: 'Db::setLocatorByUID', 17: 'Db::_loadData', 18: 'correctNewNameForDuplicates',
@@ -45,6 +54,7 @@ def model_key(o):
     code = o[0]
     fn = SITE.get(o[-1], 'site%d' % o[-1])
     if code == 2 and o[2] == 16: return 'Db::_deserialize:locator-rank-used-as-size'
+    if code == 2 and o[2] == 101: return 'Db::createFromCSV:locator-rank-used-as-size'
     if code == 3 and o[1] == 52: return 'Rule::_deserialize:crash-on-corrupted-field'
     if code == 3: return fn + ':store-out-of-bounds'
     if code == 2 and o[1] in (3, 4): return fn + ':crash-on-corrupted-field'
@@ -137,7 +147,7 @@ def nums_close(a, b): return len(a) == len(b) and all(num_close(x, y) for x, y i
 
 def dump_equal(cls, di, dm):
     try:
-        if cls == 1:
+        if cls == 1 or 30 <= cls <= 34:
             return di[0] == dm[0] and di[1] == dm[1] and di[2] == dm[2] and di[3] == dm[3] and di[4] == dm[4] and nums_close(di[5], dm[5])
         if cls == 2:
             gi, gm = di[0], dm[0]
@@ -150,9 +160,15 @@ def dump_equal(cls, di, dm):
         if cls == 14: return len(di) == len(dm) and all(dump_equal(11, a, b) for a, b in zip(di, dm))
         if cls == 13: return di[0] == dm[0] and num_close(di[1], dm[1])
         if cls == 10: return di[0] == dm[0] and num_close(di[2], dm[2])     # the coefficients returned by getPsiHns depend on r (point -> block): not compared
-        if cls in (8, 16, 7, 6): return list(di) == list(dm)
+        if cls in (8, 16, 7, 6, 15): return list(di) == list(dm)
+        if cls == 12: return di[0] == dm[0] and list(di[1]) == list(dm[1]) and di[2] == dm[2] and di[3] == dm[3]
         if cls == 9: return di[0] == dm[0] and num_close(di[1], dm[1])
         if cls == 5: return di[0] == dm[0] and di[1] == dm[1] and di[2] == dm[2] and di[3] == dm[3] and di[4] == dm[4]
+        if cls in (18, 19):
+            return (di[0] == dm[0] and di[1] == dm[1] and nums_close(di[2], dm[2]) and nums_close(di[3], dm[3])
+                    and all(num_close(a, b) for a, b in zip(di[4:], dm[4:])) and len(di) == len(dm))
+        if cls == 17: return di[0] == dm[0] and num_close(di[1], dm[1]) and nums_close(di[2], dm[2]) and nums_close(di[3], dm[3])
+        if cls == 20: return [list(x) for x in di[0]] == [list(x) for x in dm[0]] and dump_equal(1, di[1], dm[1])
     except (IndexError, TypeError):
         return False
     return False
@@ -163,10 +179,11 @@ def matches(cls, oi, om):
     if code == 0: return oi['kind'] == 'fail' or (cls in ONE_SIDED and oi['kind'] == 'throw' and oi['code'] == 3)
     if code == 1:
         if cls in ONE_SIDED and (oi['kind'] == 'fail' or (oi['kind'] == 'throw' and oi['code'] == 3)): return True
-        if cls == 13 and not om[3]: return oi['kind'] in ('ok', 'crash')     # a Rule whose tree is not complete: using it may crash
+        if cls in (13, 5) and not om[3]: return oi['kind'] in ('ok', 'crash')     # a Rule whose tree is not complete, a Vario whose directions and results do not match: using it may crash
         return oi['kind'] == 'ok' and dump_equal(cls, oi['dump'], om[1])
     if code == 2:
         if om[1] == 3: return oi['kind'] == 'crash' and oi['what'] in ('assertion', 'ABRT', 'exit-1')
+        if om[1] == 4: return oi['kind'] == 'throw' and oi['code'] == 3
         return oi['kind'] == 'throw' and oi['code'] == om[1]
     if code == 3: return oi['kind'] == 'crash' and oi['what'] not in ('assertion', 'ABRT', 'terminate')
     if code == 4: return oi['kind'] == 'timeout' or (oi['kind'] == 'throw' and oi['code'] == 1)
@@ -183,7 +200,7 @@ def short_m(om):
 def replay_of(cls, data, oi, om=None, note=''):
     r = {'class': CLS[cls], 'entry_point': entry(cls), 'file_b64': base64.b64encode(data).decode(), 'file_text': data.decode('latin1')[:2000],
          'file_length': len(data), 'impl': short(oi), 'how': 'write file_b64 to a file and call the entry point on it (harness/C09.cpp, case "(1 %d (bytes...))") under AddressSanitizer' % cls}
-    if om is not None: r['model [code as it is now, fuel |f|+1; same, large fuel; with fixes/C09_5]'] = [short_m(x) for x in om]
+    if om is not None: r['model [code as it is now, fuel |f|+1; same, large fuel; reader before the fixes; (CSV) reader with the proposed fixes/C09_18]'] = [short_m(x) for x in om]
     if note: r['note'] = note
     return r
 
@@ -265,6 +282,9 @@ def corruptions(rng, cls, data, quick):
             if m2 and len(m2.group(1).split()) >= 2:
                 w0 = m2.group(1).split()[0]
                 out.append(('names-all-equal', data[:m2.start(1)] + b' '.join([w0] * len(m2.group(1).split())) + b' ' + data[m2.end(1):]))
+    if cls == 6 and b'Drift:x1' in data:
+        out.append(('drift:x', data.replace(b'Drift:x1', b'Drift:x', 1)))
+        out.append(('drift:x0', data.replace(b'Drift:x1', b'Drift:x0', 1)))
     # class tag
     tag = TAGS.get(cls)
     if tag:
@@ -299,6 +319,8 @@ CSV_SEEDS = [
     b'"east","north","grade"\n1.5,2,3\n4,NA,6\n',
     b'a;b\n1,5;2\n3;4,25\n',
     b'1,2\n3,4\n',
+    b'x3\n1\n2\n',              # a single column named as the third coordinate
+    b'z2,x1,x1\n1,2,3\n4,5,6\n',
 ]
 def csv_cases(rng, quick):
     out = []
@@ -318,6 +340,11 @@ def csv_cases(rng, quick):
                     out.append((30 + variant, 'csv', v[:p]))
         for p in range(len(s)):
             out.append((30 + rng.randrange(5), 'csv-prefix', s[:p]))
+    # a rank taken from a column name and used as a size (setLocatorByUID pads the list of the role up to the rank)
+    for hdr in (b'x2000000000', b'a,z2000000000', b'x70000000,y'):
+        ncol = hdr.count(b',') + 1
+        body = hdr + b'\n' + b','.join([b'1'] * ncol) + b'\n' + b','.join([b'2'] * ncol) + b'\n'
+        for variant in (0, 2, 4): out.append((30 + variant, 'csv-rank', body))
     for i in range(20 if quick else 300):
         out.append((30 + i % 5, 'csv-bytes', bytes(rng.choice(b'0123456789,;.\n\n"-eNA x') for _ in range(rng.choice([5, 30, 120])))))
     return out
@@ -373,14 +400,36 @@ def make_corpus(ctx, exe, tmpdir):
 
 def check(ctx, quick, rng, runner, exe, tmpdir, proofs_ok):
     corpus = make_corpus(ctx, exe, tmpdir)
+    # which of the readers of PENDING show their guard: those are compared with their model, the others follow the generic rules
+    global MODELLED
+    pcls = sorted(PENDING)
+    pres = run_children(ctx, exe, tmpdir, [(c, PENDING[c]) for c in pcls], batch=1)
+    guarded = sorted(c for c, o in zip(pcls, pres) if o and o['kind'] == 'fail')
+    MODELLED = (MODELLED - set(PENDING)) | set(guarded)
+    ctx.cov['guards_of_proposed_fixes_present'] = {CLS[c]: (c in guarded) for c in pcls}
+    ctx.log('guards of fixes/C09_19..22 present in the implementation: %s' % ({CLS[c]: (c in guarded) for c in pcls}))
+    if guarded and len(guarded) < len(pcls):
+        ctx.notes.append('only some of the guards of fixes/C09_19..22 are present: %s' % [CLS[c] for c in guarded])
     ctx.log('corpus: %d valid files written by the library (%s)' % (len(corpus), ', '.join(sorted(set(CLS[c] for c, _ in corpus)))))
     cases = []     # (cls, label, bytes)
     # the files of the Coq refutations (coq/C09/Witness.v) and the valid files of the non-vacuity examples, always first
     for name, cls, data in coq_witnesses():
         cases.append((cls, 'coq-witness:' + name, data))
+    # the same files kept as a regression corpus (corpus/C09_regression.tsv): the files that broke the readers before each fix;
+    # the reader models before the fixes still fail on them, so a reverted fix shows under its old key
+    tag2cls = {v: k for k, v in TAGS.items()}
+    rp = os.path.join(VERIF, 'corpus', 'C09_regression.tsv')
+    if os.path.exists(rp):
+        for line in open(rp):
+            if line.startswith('#') or not line.strip(): continue
+            name, first, b64 = line.rstrip('\n').split('\t')
+            data = base64.b64decode(b64)
+            if first.encode('latin1') in tag2cls: cases.append((tag2cls[first.encode('latin1')], 'regression-corpus:' + name, data))
+            else:
+                for variant in (0, 2, 4): cases.append((30 + variant, 'regression-corpus:' + name, data))
     for cls, data in corpus:
         cases.append((cls, 'valid', data))
-        for p in prefixes(rng, data, quick, cls in MODELLED): cases.append((cls, 'prefix', data[:p]))
+        for p in prefixes(rng, data, quick, cls in FULL_PREFIX): cases.append((cls, 'prefix', data[:p]))
         if cls < 40:
             for lab, d in corruptions(rng, cls, data, quick): cases.append((cls, lab, d))
         else:
@@ -391,13 +440,31 @@ def check(ctx, quick, rng, runner, exe, tmpdir, proofs_ok):
                     for v in (0, 127, 255):
                         cases.append((cls, 'header-byte', data[:k] + bytes([v]) + data[k + 1:]))
             lines = data.split(b'\n')
+            if cls != 43:
+                # header fields merged or split: each comma of the first lines deleted / replaced by a digit
+                head = b'\n'.join(lines[:12])
+                for k in [m.start() for m in re.finditer(rb',', head)][:60]:
+                    cases.append((cls, 'separator', data[:k] + data[k + 1:]))
+                    cases.append((cls, 'separator', data[:k + 1] + b'2' + data[k + 1:]))
             for i in range(len(lines)):
                 cases.append((cls, 'line-deleted', b'\n'.join(lines[:i] + lines[i + 1:])))
-                for w in (b'-1', b'0', b'99999999', b'NA', b'abc'):
+                for w in (b'-1', b'0', b'1', b'99999999', b'NA', b'abc'):
                     cases.append((cls, 'number:' + w.decode(), b'\n'.join(lines[:i] + [re.sub(rb'\d+', w, lines[i], count=1)] + lines[i + 1:])))
                     cases.append((cls, 'number:' + w.decode(), b'\n'.join(lines[:i] + [re.sub(rb'(\d+)(\D*)$', w.replace(b'\\', b'') + rb'\2', lines[i], count=1)] + lines[i + 1:])))
     for cls in sorted(set(c for c, _ in corpus if c < 30)):
         for lab, d in byte_streams(rng, cls, 12 if quick else 200): cases.append((cls, lab, d))
+    # MeshETurbo with masks (the library writes none for a complete grid): ranks inside / outside the grid, array and map storage,
+    # a grid out of proportion with the file
+    def turbo(nx, mode, mesh, grid):
+        t = 'MeshETurbo\n2 # Space Dimension\n# NX\n%s \n# DX\n1 1 \n# X0\n0 0 \n# Rotation\n1 0 0 1 \n0 # Polarization\n%d # Storing Mode\n' % (nx, mode)
+        for lab, ranks in (('Mesh', mesh), ('Grid', grid)):
+            t += '%d # %s Active Count\n%d # %s Masking Count\n' % (len(ranks) if ranks else 12, lab, 1 if ranks else 0, lab)
+            if ranks: t += '# %s Masking\n%s \n' % (lab, ' '.join(str(r) for r in ranks))
+        return t.encode()
+    for mode in (0, 1):
+        for nx, mesh, grid in (('3 4', [0, 5, 11], []), ('3 4', [], [0, 11]), ('3 4', [0, 5000], []), ('3 4', [-1], []), ('3 4', [], [12]), ('3 4', [], [-7]),
+                               ('30000 30000', [0, 7], []), ('30000 30000', [], [3]), ('70000 70000', [1], []), ('3 4', [0, 1, 2, 3] * 5, [])):
+            cases.append((12, 'mask', turbo(nx, mode, mesh, grid)))
     cases += csv_cases(rng, quick)
     # the model materialises lists: keep counts either small or far above the cap (mid-range counts are regenerated as huge)
     def tame(d):
@@ -491,7 +558,8 @@ def check(ctx, quick, rng, runner, exe, tmpdir, proofs_ok):
         elif oi.get('maxreq', 0) > ALLOC_A * len(data) + ALLOC_B:
             generic_bad = 'allocation request of %d bytes for a file of %d bytes' % (oi['maxreq'], len(data))
         if cls in MODELLED:
-            o1, o2, o3 = model[i]
+            o1, o2, o3 = model[i][:3]
+            o4 = model[i][3] if len(model[i]) > 3 else None      # the reader with a proposed, not yet applied, fix
             if o1 and o1[0] == -999: print('ERROR: model rejected case', i); sys.exit(3)
             if matches(cls, oi, o2) or (o1[0] == 4 and matches(cls, oi, o1)):
                 if o1[0] == 4 and o2[0] != 4 and not generic_bad:
@@ -513,13 +581,23 @@ def check(ctx, quick, rng, runner, exe, tmpdir, proofs_ok):
                 else:
                     stats['agree'] += 1
                     if oi['kind'] == 'ok': check_flags(cls, lab, data, oi, report, name)
-            elif matches(cls, oi, o3) and not generic_bad:
-                # the implementation already behaves as the model with the proposed fixes/C09_5
-                stats['agree_fixed_model'] += 1
+            elif o4 is not None and matches(cls, oi, o4) and (o4[0] == 0 or (o4[0] == 1 and o4[3])) and not generic_bad:
+                # the implementation behaves as the reader with the proposed fix (fixes/C09_18 applied): agreement with that model
+                stats['agree_next_model'] = stats.get('agree_next_model', 0) + 1
                 if oi['kind'] == 'ok': check_flags(cls, lab, data, oi, report, name)
+            elif matches(cls, oi, o3) and (o3[0] >= 2 or (o3[0] == 1 and not o3[3])):
+                # the implementation behaves as the reader did BEFORE a fix: the old failure is back (regression)
+                stats['regression'] = stats.get('regression', 0) + 1; found_input = True
+                key = model_key(o3) if o3[0] >= 2 else illformed_key(cls, o3[1])
+                report(key, '%s on a %s file (%s): the implementation no longer behaves as the current reader model (%s) but as the reader before the fix: %s' % (
+                    name, CLS[cls], lab, short_m(o2), generic_bad or short(oi)), replay_of(cls, data, oi, model[i], 'regression: a fix of fixes/C09_* seems to have been reverted'), len(data))
             else:
-                # neither the model of the code as it is nor the model with the proposed fix: decide on the property itself
-                if generic_bad:
+                # neither the current reader model nor the reader before the fixes: decide on the property itself
+                if generic_bad and cls in ONE_SIDED and oi['kind'] in ('crash', 'throw'):
+                    # downstream of the reader (the oracles of the model): a failure of the property, under the key of the reader
+                    found_input = True
+                    report(generic_key(cls, oi), '%s on a %s file (%s): %s' % (name, CLS[cls], lab, generic_bad), replay_of(cls, data, oi, model[i]), len(data))
+                elif generic_bad:
                     found_input = True
                     report('unpredicted:' + generic_key(cls, oi),
                            '%s on a %s file (%s): %s — the reader model predicts %s' % (name, CLS[cls], lab, generic_bad, short_m(o2)), replay_of(cls, data, oi, model[i]), len(data))
@@ -544,7 +622,9 @@ def check(ctx, quick, rng, runner, exe, tmpdir, proofs_ok):
             else: stats['unmodelled_fail'] += 1
     for key in sorted(viol):
         size, text, replay, fi = viol[key]
-        ctx.violation(key, text, replay, found_input=fi)
+        r = ctx.violation(key, text, replay, found_input=fi)
+        if r == 'known' and os.environ.get('C09_SHOW_KNOWN'):
+            ctx.log('known finding %s: %s | file %r' % (key, text[:400], replay.get('file_text', '')[:300]))
     ctx.cov['outcomes'] = stats
     ctx.cov['modelled_classes'] = sorted(CLS[c] for c in MODELLED)
     ctx.cov['trusted_base'] += ['AddressSanitizer (g++ 12, -fsanitize=address) on library and harness; harness/C09.cpp replaces operator new to measure requests and to refuse > 256 MB (ASan max_allocation_size_mb=256 for malloc); 5 s CPU timer per load',
@@ -557,9 +637,14 @@ def check(ctx, quick, rng, runner, exe, tmpdir, proofs_ok):
     ctx.log('outcomes: %s' % stats)
     ctx.log('phases (s): %s' % PHASES)
     if not proofs_ok: proof_break_violation(ctx, found_input)
+    if stats.get('agree_next_model'):
+        ctx.notes.append('%d CSV files behave as the reader model with the proposed fixes/C09_18 (the fix seems applied: re-align run_csv of coq/C09/Run.v)' % stats['agree_next_model'])
     ctx.assumptions = ['files shorter than 2^31 bytes', 'device errors (badbit) do not occur while reading',
                        'memory safety of code downstream of the readers (std::string, Eigen, destructors) is runtime evidence only (ASan on the explored files)',
-                       'C09_no_oob, C09_total, C09_alloc_bounded (5 loaders), C09_no_exception_partial speak about the code as it is now (cfg_now = fixes C09_1, C09_2, C09_3 second hunk, C09_4 applied); C09_wellformed and C09_no_exception need the proposed fixes/C09_5 (cfg_fixed); for Db/DbGrid as they are now they are refuted (C09_*_refuted)']
+                       'the theorems of coq/C09/Properties.v speak about the readers as they are now (every fix of fixes/C09_1 .. C09_17 is in /repo: cfg_fixed, p_all); '
+                       'the theorems about AnamDiscreteDD / IR, AnamEmpirical, DbLine, MeshETurbo (C09_pending_*) and C09_csv_no_exception speak about the readers WITH the proposed fixes/C09_18 .. C09_22; '
+                       'the grid exchange formats (Zycor, IfpEn, F2G, BMP) have no reader model (generic safety rules only)',
+                       'Model: the construction of a covariance / a drift from its identifier is an oracle of the reader model (theorems hold whatever it answers)']
     ctx.level = 'proof (reader logic) + runtime evidence (memory safety downstream)'
 
 def generic_key(cls, oi):
@@ -569,6 +654,7 @@ def generic_key(cls, oi):
     if cls >= 30: rd = entry(cls)
     else: rd = CLS[cls] + '::_deserialize'
     if oi['kind'] == 'crash' or (oi['kind'] == 'throw' and oi['code'] not in (1, 2)):
+        if cls in (18, 19): rd = 'AnamDiscrete::_deserialize'      # the two heirs crash in the same place for the same reason
         return rd + ':crash-on-corrupted-field'
     if cls in FAMILY_COUNT: rd = FAMILY_COUNT[cls] + '::_deserialize'
     return rd + ':count-from-file-unchecked'
@@ -602,6 +688,7 @@ def impl_illformed(cls, d):
     return False
 
 def illformed_why(cls, d):
+    if 30 <= cls <= 34: return illformed_why0(1, d)
     if cls == 13: return 'the tree of nodes described by the file is refused or incomplete, the object is returned all the same'
     if cls == 5: return 'a direction of the file was not added to the VarioParam (grid and non-grid definitions mixed): results and directions no longer match'
     return illformed_why0(cls, d)
@@ -628,6 +715,7 @@ def illformed_key(cls, d):
         if ncol < 0 or nech < 0: return 'Db::_deserialize:negative-count-accepted'
         return 'Db::_deserialize:locator-rank-beyond-count'
     if cls in (13, 5): return CLS[cls] + '::_deserialize:crash-on-corrupted-field'
+    if 30 <= cls <= 34: return 'Db::createFromCSV:locator-rank-beyond-count'
     return CLS[cls] + '::_deserialize:ill-formed-object'
 def prod(l):
     p = 1
